@@ -7,7 +7,9 @@ VARIABLE x
 Names == {<<"", "a">>, <<"urn:a", "b">>, <<"urn:b", "a">>}
 AttrSets == { <<>>, << <<<<"", "k">>, [s |-> "v"]>> >>,
               << <<<<"urn:b", "k">>, [p |-> "p", l |-> "q", u |-> "urn:a"]>> >>,
-              << <<<<"", "j">>, [p |-> "zz", l |-> "q", u |-> NONE]>>, <<<<"", "k">>, [s |-> "a b"]>> >> }
+              << <<<<"", "j">>, [p |-> "zz", l |-> "q", u |-> NONE]>>, <<<<"", "k">>, [s |-> "a b"]>> >>,
+              \* xsi:type naming a type that is neither built in nor a binding class
+              << <<XsiType, [p |-> "t", l |-> "custom", u |-> "urn:types"]>> >> }
 Texts == {"", "t", " "}
 Tails == {"", "u", " "}
 Leaves == {[name |-> n, attrs |-> a, text |-> t, kids |-> <<>>, tail |-> tl] :
